@@ -1,3 +1,254 @@
+/-
+C02 — End-of-stream follows all data; half-close works; finished flows are torn down.
+
+Property theorems over `Code/Tunnel.lean`, for every reachable state of every schedule.
+They are read off the per-direction invariant `DirInv` (Lemmas/DirInv.lean) that `C01` carries
+along every run (`RunInv.run`); the two directions of a flow are two independent instances of
+that invariant, which is what makes half-close work.
+
+What is a theorem here and what is not: ordering (EOF after data, nothing after EOF, shutdown
+only after the socket wrapper shut), accounting and the conditions under which handlers are
+dropped are theorems for all schedules.  "Within bounded work" and "no stuck state under a
+fair schedule" are liveness claims; they are decided on the real classes by the fair-drain
+oracle of `harness/props/c02.py`, not by a theorem (see DESIGN.md).
+-/
 import SshuttleModel.Props.C01
+import SshuttleModel.Lemmas.SockInv
+
 namespace Sshuttle.Tunnel
+open Sshuttle.Mux (Frame)
+open Sshuttle.Wrap
+
+/-- Every flow of every reachable, alive world satisfies the two-direction invariant. -/
+theorem reach_flowOK (w0 : World) (h0 : Fresh w0) (steps : List Step)
+    (hg : ∀ st ∈ steps, GoodStep st) (hn : (chans (w0.run steps)).Nodup)
+    (halive : (w0.run steps).died = none) :
+    ∀ f ∈ (w0.run steps).flows, FlowOK (w0.run steps).cm (w0.run steps).sm f := by
+  have hw := (h0.runInv.run steps hg hn).2 halive
+  intro f hf
+  obtain ⟨i, hi⟩ := List.getElem?_of_mem hf
+  exact hw.flows i f hi
+
+section
+variable (w0 : World) (h0 : Fresh w0) (steps : List Step)
+  (hg : ∀ st ∈ steps, GoodStep st) (hn : (chans (w0.run steps)).Nodup)
+  (halive : (w0.run steps).died = none)
+include h0 hg hn halive
+
+/-- **Nothing follows end-of-stream on the wire.**  In both frame queues, no TCP_DATA frame of a
+flow is queued behind a TCP_EOF frame of that flow. -/
+theorem C02_eof_frame_last :
+    ∀ f ∈ (w0.run steps).flows,
+      eofClean f.chan (w0.run steps).cm.out ∧ eofClean f.chan (w0.run steps).sm.out := by
+  intro f hf
+  have h := reach_flowOK w0 h0 steps hg hn halive f hf
+  have h1 := h.up.clean
+  have h2 := h.down.clean
+  rw [upSrc_out] at h1; rw [downSrc_out] at h2
+  exact ⟨h1, h2⟩
+
+/-- **EOF is sent only by an end that is done.**  While a TCP_EOF of a flow is in flight, the end
+that sent it has (if its handler still exists) stopped reading its socket, an empty buffer and
+`shut_write` on the mux side: it can never frame another byte of that flow. -/
+theorem C02_eof_sender_done :
+    ∀ f ∈ (w0.run steps).flows,
+      (hasEof f.chan (w0.run steps).cm.out = true →
+        ∀ p, f.c = some p → p.mw.shutW = true ∧ p.sw.buf.flatten = [] ∧ p.sw.shutR = true) ∧
+      (hasEof f.chan (w0.run steps).sm.out = true →
+        ∀ p, f.s = some p → p.mw.shutW = true ∧ p.sw.buf.flatten = [] ∧ p.sw.shutR = true) := by
+  intro f hf
+  have h := reach_flowOK w0 h0 steps hg hn halive f hf
+  constructor
+  · intro he p hp
+    have h1 := h.up.eofNM (by rw [upSrc_out]; exact he)
+    simp only [noMore, upSrc, hp, SV] at h1
+    rcases h1.2 with h' | h'
+    · cases h'
+    · exact h'
+  · intro he p hp
+    have h1 := h.down.eofNM (by rw [downSrc_out]; exact he)
+    simp only [noMore, downSrc, hp, SV] at h1
+    rcases h1.2 with h' | h'
+    · cases h'
+    · exact h'
+
+/-- **EOF arrives after the data** (client → server direction).  Once the server's wrapper has
+processed the flow's EOF (`shut_read` on its mux side) and has not yet shut the destination
+socket: no DATA of the flow is still in flight, the client's buffer is empty, and everything
+read from the application is what the destination received, then exactly what the server still
+buffers for it, then `lost` — bytes the client discarded, which is possible only after the
+client stopped reading (STOP_SENDING from the server, or teardown).  So the shutdown that
+follows (`copy_to`: `if not self.buf and self.shut_read: nowrite()`) happens with every byte
+delivered. -/
+theorem C02_eof_after_data_up :
+    ∀ f ∈ (w0.run steps).flows, ∀ p, f.s = some p → p.mw.shutR = true → f.dst.sawShut = false →
+      dataOf f.chan (w0.run steps).cm.out = [] ∧ (upSrc (w0.run steps).cm f).buf = [] ∧
+      ∃ lost, f.app.consumed = f.dst.delivered ++ p.mw.buf.flatten ++ lost ∧
+        (lost ≠ [] → (upSrc (w0.run steps).cm f).present = false ∨ (upSrc (w0.run steps).cm f).shutR = true) := by
+  intro f hf p hp hr hs
+  have h := reach_flowOK w0 h0 steps hg hn halive f hf
+  have hb : upSink f = KV p.sw p.mw p.ok f.dst := by simp only [upSink, hp]
+  have hg' := h.up.gone (by rw [hb]; rfl) (Or.inr (by rw [hb]; exact hr))
+  rw [hb] at hg'
+  rcases hg' with h' | ⟨hnm, hd⟩
+  · simp only [KV] at h'; rw [hs] at h'; cases h'
+  · have hbuf : (upSrc (w0.run steps).cm f).buf = [] := by
+      rcases hnm.2 with h' | h'
+      · exact h.up.srcBuf h'
+      · exact h'.2.1
+    rw [upSrc_out] at hd
+    refine ⟨hd, hbuf, ?_⟩
+    rcases h.up.exact with h' | ⟨lost, he, hl⟩
+    · rw [hb] at h'; simp only [KV] at h'; rw [hs] at h'; cases h'
+    · refine ⟨lost, ?_, fun hne => (hl hne).2⟩
+      have e3 : (upSrc (w0.run steps).cm f).consumed = f.app.consumed := by unfold upSrc; split <;> rfl
+      rw [hb, upSrc_out, hd, hbuf, e3] at he
+      simpa [KV] using he
+
+/-- The same for the server → client direction. -/
+theorem C02_eof_after_data_down :
+    ∀ f ∈ (w0.run steps).flows, ∀ p, f.c = some p → p.mw.shutR = true → f.app.sawShut = false →
+      dataOf f.chan (w0.run steps).sm.out = [] ∧ (downSrc (w0.run steps).sm f).buf = [] ∧
+      ∃ lost, f.dst.consumed = f.app.delivered ++ p.mw.buf.flatten ++ lost ∧
+        (lost ≠ [] → (downSrc (w0.run steps).sm f).present = false ∨ (downSrc (w0.run steps).sm f).shutR = true) := by
+  intro f hf p hp hr hs
+  have h := reach_flowOK w0 h0 steps hg hn halive f hf
+  have hb : downSink f = KV p.sw p.mw p.ok f.app := by simp only [downSink, hp]
+  have hg' := h.down.gone (by rw [hb]; rfl) (Or.inr (by rw [hb]; exact hr))
+  rw [hb] at hg'
+  rcases hg' with h' | ⟨hnm, hd⟩
+  · simp only [KV] at h'; rw [hs] at h'; cases h'
+  · have hbuf : (downSrc (w0.run steps).sm f).buf = [] := by
+      rcases hnm.2 with h' | h'
+      · exact h.down.srcBuf h'
+      · exact h'.2.1
+    rw [downSrc_out] at hd
+    refine ⟨hd, hbuf, ?_⟩
+    rcases h.down.exact with h' | ⟨lost, he, hl⟩
+    · rw [hb] at h'; simp only [KV] at h'; rw [hs] at h'; cases h'
+    · refine ⟨lost, ?_, fun hne => (hl hne).2⟩
+      have e3 : (downSrc (w0.run steps).sm f).consumed = f.dst.consumed := by unfold downSrc; split <;> rfl
+      rw [hb, downSrc_out, hd, hbuf, e3] at he
+      simpa [KV] using he
+
+/-- **Half-close.**  The finished direction does not disturb the other one: with the client →
+server direction completely closed (application closed, destination socket shut down), the
+server → client direction still satisfies the full accounting of C01 as long as the
+application's socket has not been shut — its bytes keep flowing, in order, without loss. -/
+theorem C02_half_close :
+    ∀ f ∈ (w0.run steps).flows, f.dst.sawShut = true → f.app.sawShut = false →
+      ∃ lost, f.dst.consumed = f.app.delivered ++ (downSink f).buf ++ dataOf f.chan (w0.run steps).sm.out ++
+          (downSrc (w0.run steps).sm f).buf ++ lost ∧
+        (lost ≠ [] → (downSrc (w0.run steps).sm f).present = false ∨ (downSrc (w0.run steps).sm f).shutR = true) := by
+  intro f hf _ hs
+  rcases (C01_conservation w0 h0 steps hg hn halive f hf).2 with h | h
+  · rw [hs] at h; cases h
+  · exact h
+
+/-- **A dead handler has shut its socket.**  A handler whose `ok` is False (it is about to be
+dropped from the loop) has `shut_write` set on its socket wrapper, and the socket really was
+shut down. -/
+theorem C02_dead_handler_shut :
+    ∀ f ∈ (w0.run steps).flows,
+      (∀ p, f.c = some p → p.ok = false → p.sw.shutW = true ∧ f.app.sawShut = true) ∧
+      (∀ p, f.s = some p → p.ok = false → p.sw.shutW = true ∧ f.dst.sawShut = true) := by
+  intro f hf
+  have h := reach_flowOK w0 h0 steps hg hn halive f hf
+  constructor
+  · intro p hp hok
+    have hb : downSink f = KV p.sw p.mw p.ok f.app := by simp only [downSink, hp]
+    have h1 := h.down.dead (by rw [hb]; rfl) (by rw [hb]; exact hok)
+    have h2 := h.down.shutOk (by rw [hb]; rfl) h1
+    rw [hb] at h1 h2
+    exact ⟨h1, h2⟩
+  · intro p hp hok
+    have hb : upSink f = KV p.sw p.mw p.ok f.dst := by simp only [upSink, hp]
+    have h1 := h.up.dead (by rw [hb]; rfl) (by rw [hb]; exact hok)
+    have h2 := h.up.shutOk (by rw [hb]; rfl) h1
+    rw [hb] at h1 h2
+    exact ⟨h1, h2⟩
+
+/-- **A dropped handler left no socket hanging.**  Whenever a flow's client handler is no longer
+in the loop its application socket was shut down; whenever the server handler existed and is
+gone, the destination socket was shut down. -/
+theorem C02_dropped_handler_shut :
+    ∀ f ∈ (w0.run steps).flows,
+      (f.c = none → f.app.sawShut = true) ∧ (f.s = none → f.sEver = true → f.dst.sawShut = true) := by
+  intro f hf
+  have h := reach_flowOK w0 h0 steps hg hn halive f hf
+  constructor
+  · intro hc
+    have hb : downSink f = goneSink true f.app := by simp only [downSink, hc]
+    have := h.down.goneShut (by rw [hb]; rfl) (by rw [hb]; rfl)
+    rw [hb] at this; exact this
+  · intro hs hev
+    have hb : upSink f = goneSink f.sEver f.dst := by simp only [upSink, hs]
+    have := h.up.goneShut (by rw [hb]; exact hev) (by rw [hb]; rfl)
+    rw [hb] at this; exact this
+
+end
+
+/-! ### dropping handlers, freeing identifiers (definitional facts of the loop model) -/
+
+/-- The loop drops exactly the handlers whose `ok` is False. -/
+theorem C02_remove_only_dead (w : World) (i : Nat) (f : Flow) (h : w.flows[i]? = some f) :
+    w.rmC.flows[i]? = some (match f.c with
+      | some p => if p.ok then f else { f with c := none }
+      | none => f) := by
+  simp only [World.rmC, List.getElem?_map, h, Option.map_some]
+  cases f.c <;> rfl
+
+/-- A flow whose client handler is gone or unregistered does not occupy its identifier: with
+distinct flow ids, the allocator sees the id free again. -/
+theorem C02_id_free_after_teardown (w : World) (c : Nat) (hx : c ∉ w.extraOcc)
+    (h : ∀ f ∈ w.flows, f.chan = c → ∀ p, f.c = some p → p.mw.registered = false) :
+    w.cOcc c = false := by
+  unfold World.cOcc
+  have h1 : w.extraOcc.contains c = false := by simpa using hx
+  rw [h1, Bool.false_or]
+  apply List.any_eq_false.mpr
+  intro f hf
+  cases hc : f.c with
+  | none => simp
+  | some p =>
+    by_cases hch : f.chan = c
+    · have := h f hf hch p hc
+      simp [this]
+    · simp [hch]
+
+
+/-- **A finished handler frees its identifier at once, under every schedule** (no hypothesis on
+the steps).  As soon as a handler's `ok` is False — before the loop has even dropped it — all four
+shut flags are set, both buffers are empty, and the wrapper is unregistered from the Mux
+(`channels[id] = None`): the allocator sees the id free, and late frames for it are dropped. -/
+theorem C02_finished_frees_id (w0 : World) (h0 : w0.flows = []) (steps : List Step) :
+    ∀ f ∈ (w0.run steps).flows,
+      (∀ p, f.c = some p → p.ok = false → Dead p ∧ p.mw.registered = false) ∧
+      (∀ p, f.s = some p → p.ok = false → Dead p ∧ p.mw.registered = false) := by
+  intro f hf
+  obtain ⟨hc, hs⟩ := reach_flowSock w0 h0 steps f hf
+  exact ⟨fun p hp hok => ⟨(hc p hp).2 hok, ((hc p hp).2 hok).unregistered⟩,
+         fun p hp hok => ⟨(hs p hp).2 hok, ((hs p hp).2 hok).unregistered⟩⟩
+
+
+/-! ### non-vacuity -/
+
+def demo2 : List Step :=
+  [.accept, .deliver .server .ok, .appWrite 0 [1, 2, 3], .appEof 0,
+   .cb .client 0 { recv := .data 65536 }, .cb .client 0 { recv := .data 65536 },
+   .deliver .server .ok, .deliver .server .ok]
+
+/-- A reachable state meeting the hypotheses of `C02_eof_after_data_up`: the server has processed
+the EOF, has not shut the destination yet and still buffers the three bytes; one more callback
+delivers them and only then shuts the socket down. -/
+example :
+    let w : World := ({} : World).run demo2
+    Fresh ({} : World) ∧ (∀ st ∈ demo2, GoodStep st) ∧ (chans w).Nodup ∧ w.died = none ∧
+    (w.flows.map fun f => ((f.s.map fun p => (p.mw.shutR, p.mw.buf)), f.dst.sawShut, f.app.consumed)) =
+      [(some (true, [[1, 2, 3]]), false, [1, 2, 3])] ∧
+    ((w.step (.cb .server 0 { send := .sent 65536 })).flows.map fun f => (f.dst.sawShut, f.dst.delivered)) =
+      [(true, [1, 2, 3])] := by
+  refine ⟨⟨rfl, by decide, by decide⟩, (by intro st hst; simp only [demo2, List.mem_cons, List.not_mem_nil, or_false] at hst; rcases hst with h | h | h | h | h | h | h | h <;> subst h <;> trivial), by decide +kernel, by decide +kernel, by decide +kernel,
+    by decide +kernel⟩
+
 end Sshuttle.Tunnel
